@@ -1039,7 +1039,24 @@ loop:
 		}
 		s.decisions++
 		i := 0
-		if n > 1 {
+		if ss, ok := s.src.(SchedSource); ok && len(ready) > 1 && s.streak < fairK {
+			// (strict priorities starve: after fairK consecutive continuations of one task while others
+			// were ready the bounded-fair default order below takes over, as for every other source)
+			ids := make([]int, len(ready))
+			for k, t := range ready {
+				ids[k] = t.ID
+			}
+			i = ss.ChooseSched(ids, s.decisions)
+			if i < 0 || i >= len(ready) {
+				i = 0
+			}
+			s.choices = append(s.choices, Choice{"sched", n, i})
+			if i != 0 {
+				s.Logf("choose sched %d/%d", i, n)
+			} else {
+				s.hashInts("sched", i, n)
+			}
+		} else if n > 1 {
 			i = s.Choose(n, "sched")
 		}
 		if clockOpt && i == n-1 {
